@@ -11,6 +11,7 @@ import (
 	"hash/fnv"
 	"os"
 	"path/filepath"
+	"runtime"
 	"sort"
 	"strconv"
 	"strings"
@@ -320,6 +321,12 @@ func sigFile(sig string) string {
 // Finish prints VIOLATION / KNOWN-FINDING / RESULT lines, writes replay files
 // and the evidence file, and returns the process exit code.
 func (r *Run) Finish() int {
+	strayMu.Lock()
+	for _, sp := range strayPanics {
+		first := strings.SplitN(sp, "\n", 2)[0]
+		r.Violate("panic", "panic reached the harness: "+first, "a panic escaped from the library into the harness:\n"+sp, map[string]any{"panic": first})
+	}
+	strayMu.Unlock()
 	wall := time.Since(r.Start).Seconds()
 	known := LoadKnown()
 	r.mu.Lock()
@@ -454,7 +461,14 @@ func ParallelFor(n, w int, f func(i int)) {
 				if i >= n {
 					return
 				}
-				f(i)
+				func() {
+					defer func() {
+						if p := recover(); p != nil {
+							notePanic(p)
+						}
+					}()
+					f(i)
+				}()
 			}
 		}()
 	}
@@ -510,3 +524,24 @@ func (r *Run) MergeChildOutput(out []byte, variant string, countNT bool) bool {
 	}
 	return false
 }
+
+// Panics that reached the harness from library code called outside a driver's own recover.
+// On the unchanged tree there are none; on a changed tree they are violations (the library
+// crashed its caller), reported by Finish with the stack.
+var (
+	strayMu     sync.Mutex
+	strayPanics []string
+)
+
+func notePanic(p any) {
+	buf := make([]byte, 6000)
+	buf = buf[:runtime.Stack(buf, false)]
+	strayMu.Lock()
+	if len(strayPanics) < 5 {
+		strayPanics = append(strayPanics, fmt.Sprintf("%v\n%s", p, buf))
+	}
+	strayMu.Unlock()
+}
+
+// NotePanic lets drivers and main report a recovered panic the same way.
+func NotePanic(p any) { notePanic(p) }
